@@ -922,7 +922,7 @@ func allTargets() []*target {
 	for _, c := range v6cfgs {
 		for _, ps := range []string{"no lease", "lease"} {
 			c, ps := c, ps
-			add(&target{name: fmt.Sprintf("dhcpv6.Server.handleMessage[%s,%s]", c.name, ps), entry: "dhcpv6.Server.handleMessage", seeds: dhcp6Seeds(sd),
+			add(&target{name: fmt.Sprintf("dhcpv6.Server.handleMessage[%s,%s]", c.name, ps), entry: "dhcpv6.Server.handleMessage", seeds: dhcp6Seeds(sd), quickLite: c.name != "legacy addr+pd" && c.name != "integrated addr+pd", light: c.name != "legacy addr+pd" && c.name != "integrated addr+pd",
 				wraps: []func([]byte) []byte{
 					func(p []byte) []byte { return append([]byte{1, 0, 0, 1, 0, 1, 0, byte(len(p))}, p...) }, // Solicit, ClientID = p
 					func(p []byte) []byte {
@@ -1016,5 +1016,7 @@ func allTargets() []*target {
 				return false
 			}})
 	}
+	addTimerTargets(add)
+	addStreamTargets(add)
 	return ts
 }
